@@ -19,8 +19,10 @@ def install():
     from crosshair.libimpl.builtinslib import PreciseIeeeSymbolicFloat, RealBasedSymbolicFloat, SymbolicInt
     from crosshair.tracers import NoTracing
 
+    from crosshair.core import deep_realize as _dr
+
     def mk(name, real_fn, rm):
-        stock = xc._PATCH_REGISTRATIONS[getattr(math, name)]
+        native = getattr(math, name)
 
         def patched(x):
             with NoTracing():
@@ -31,7 +33,9 @@ def install():
                 x._check_finite_convert_to("integer")
                 with NoTracing():
                     return SymbolicInt(z3.ToInt(z3.fpToReal(z3.fpRoundToIntegral(rm(), x.var))))
-            return stock(x)
+            with NoTracing():
+                # anything else (concrete numbers, symbolic ints, ...): realise and call the real function
+                return native(_dr(x))
 
         xc._PATCH_REGISTRATIONS[getattr(math, name)] = patched
 
